@@ -1424,10 +1424,11 @@ Proof.
 Qed.
 
 Lemma xls_sheet_merges_with_ext : forall f g, (forall r, f r = g r) ->
-  forall recs acc, xls_sheet_merges_with f recs acc = xls_sheet_merges_with g recs acc.
+  forall recs acc dp, xls_sheet_merges_with f recs acc dp = xls_sheet_merges_with g recs acc dp.
 Proof.
-  intros f g H. induction recs as [|[typ data] recs IH]; intros acc; [reflexivity|].
+  intros f g H. induction recs as [|[typ data] recs IH]; intros acc dp; [reflexivity|].
   cbn [xls_sheet_merges_with]. rewrite H.
+  destruct (typ =? REC_BOF); [auto|]. destruct (1 <? dp); [auto|].
   destruct (typ =? REC_MERGECELLS); [destruct (g data); cbn [obind]; auto|].
   destruct (typ =? REC_EOF); auto.
 Qed.
@@ -1445,22 +1446,50 @@ Proof.
   intros d (A & B & C & D). unfold XLS_ROWS, XLS_COLS in *. unfold xls_dims_ok. lia.
 Qed.
 
-Lemma xsm_quiet_app : forall l rest acc, forallb quiet_rec l = true ->
-  xls_sheet_merges (l ++ rest) acc = xls_sheet_merges rest acc.
+(* inside a nested substream with [d] further substreams open in it: whatever the records are
+   (MERGECELLS records too), once BOF and EOF balance the loop is back at the depth of the nested
+   substream (2) with the regions collected so far unchanged *)
+Lemma xsm_sub : forall recs d rest acc, xbalanced d recs = true ->
+  xls_sheet_merges (recs ++ rest) acc (2 + N.of_nat d) = xls_sheet_merges rest acc 2.
 Proof.
   unfold xls_sheet_merges.
-  induction l as [|[typ data] l IH]; intros rest acc H; [reflexivity|].
-  cbn in H. apply andb_true_iff in H. destruct H as [H1 H2].
-  unfold quiet_rec in H1. cbn [fst] in H1. apply andb_true_iff in H1. destruct H1 as [A B].
-  apply negb_true_iff in A. apply negb_true_iff in B.
-  cbn [app xls_sheet_merges_with]. rewrite A, B. apply IH. exact H2.
+  induction recs as [|[typ data] recs IH]; intros d rest acc H.
+  - cbn [xbalanced] in H. destruct d; [reflexivity|discriminate].
+  - cbn [xbalanced fst] in H. cbn [app xls_sheet_merges_with].
+    destruct (typ =? REC_BOF) eqn:E1.
+    + replace (2 + N.of_nat d + 1) with (2 + N.of_nat (S d)) by lia. apply IH, H.
+    + replace (1 <? 2 + N.of_nat d) with true by lia.
+      destruct (typ =? REC_EOF) eqn:E2.
+      * destruct d as [|d']; [discriminate|].
+        replace (2 + N.of_nat (S d') - 1) with (2 + N.of_nat d') by lia. apply IH, H.
+      * apply IH, H.
+Qed.
+
+(* records of the sheet itself and nested substreams between the MergeCells records: skipped *)
+Lemma xsm_quiet_app : forall l rest acc, forallb xother_legal l = true ->
+  xls_sheet_merges (flat_map enc_xother l ++ rest) acc 1 = xls_sheet_merges rest acc 1.
+Proof.
+  induction l as [|o l IH]; intros rest acc H; [reflexivity|].
+  cbn [forallb] in H. apply andb_true_iff in H. destruct H as [H1 H2].
+  cbn [flat_map]. rewrite <- app_assoc. destruct o as [[typ data]|bof recs]; cbn [xother_legal] in H1.
+  - unfold quiet_rec in H1. cbn [fst] in H1. rewrite !andb_true_iff in H1. destruct H1 as [[A B] C].
+    apply negb_true_iff in A. apply negb_true_iff in B. apply negb_true_iff in C.
+    cbn [enc_xother app]. unfold xls_sheet_merges at 1. cbn [xls_sheet_merges_with].
+    rewrite A, B, C. change (1 <? 1) with false. cbv iota. apply IH. exact H2.
+  - cbn [enc_xother app]. unfold xls_sheet_merges at 1. cbn [xls_sheet_merges_with].
+    change (REC_BOF =? REC_BOF) with true. cbv iota. change (1 + 1) with (2 + N.of_nat 0).
+    fold xls_sheet_merges. rewrite <- app_assoc. rewrite xsm_sub by exact H1.
+    cbn [app]. unfold xls_sheet_merges at 1. cbn [xls_sheet_merges_with].
+    change (REC_EOF =? REC_BOF) with false. change (1 <? 2) with true.
+    change (REC_EOF =? REC_EOF) with true. cbv iota. change (2 - 1) with 1.
+    apply IH. exact H2.
 Qed.
 
 Lemma xsm_groups : forall groups rest acc,
-  forallb (fun g => forallb quiet_rec (fst g) && Nat.leb (length (snd g)) MAX_MERGE_PER_RECORD) groups = true ->
+  forallb (fun g => forallb xother_legal (fst g) && Nat.leb (length (snd g)) MAX_MERGE_PER_RECORD) groups = true ->
   Forall (dims_ok XLS_ROWS XLS_COLS) (concat (map snd groups)) ->
-  xls_sheet_merges (flat_map (fun g => fst g ++ [enc_mergecells (snd g)]) groups ++ rest) acc =
-  xls_sheet_merges rest (acc ++ concat (map snd groups)).
+  xls_sheet_merges (flat_map (fun g => flat_map enc_xother (fst g) ++ [enc_mergecells (snd g)]) groups ++ rest) acc 1 =
+  xls_sheet_merges rest (acc ++ concat (map snd groups)) 1.
 Proof.
   induction groups as [|[others ds] groups IH]; intros rest acc HL HD.
   - cbn. rewrite app_nil_r. reflexivity.
@@ -1470,27 +1499,30 @@ Proof.
     cbn [flat_map fst snd]. rewrite <- !app_assoc. rewrite xsm_quiet_app by exact Q1.
     cbn [app]. unfold enc_mergecells at 1. unfold xls_sheet_merges at 1. cbn [xls_sheet_merges_with].
     fold xls_sheet_merges.
-    assert (E : (REC_MERGECELLS =? REC_MERGECELLS) = true) by reflexivity. rewrite E.
+    change (REC_MERGECELLS =? REC_BOF) with false. change (1 <? 1) with false.
+    change (REC_MERGECELLS =? REC_MERGECELLS) with true. cbv iota.
     pose proof (@parse_merge_cells_enc ds) as P. unfold enc_mergecells in P. cbn [snd] in P.
     rewrite P; [|lia|]. 2:{ eapply Forall_impl; [|exact HD1]. apply xls_dims_of_ok. }
     cbn [obind]. rewrite IH by assumption. cbn [map concat snd]. rewrite app_assoc. reflexivity.
 Qed.
 
 Lemma xls_sheet_legal_parts : forall s, xls_sheet_legal s = true ->
-  forallb (fun g => forallb quiet_rec (fst g) && Nat.leb (length (snd g)) MAX_MERGE_PER_RECORD)
-          (xs_groups s) = true /\ forallb quiet_rec (xs_tail s) = true.
+  forallb (fun g => forallb xother_legal (fst g) && Nat.leb (length (snd g)) MAX_MERGE_PER_RECORD)
+          (xs_groups s) = true /\ forallb xother_legal (xs_tail s) = true.
 Proof. intros s H. unfold xls_sheet_legal in H. apply andb_true_iff in H. exact H. Qed.
 
-(* one sheet substream: the declared regions, in order, across any number of MergeCells records *)
+(* one sheet substream: the declared regions, in order, across any number of MergeCells records,
+   with any records and any nested substreams (whatever they hold) between and behind them *)
 Lemma xls_sheet_exact : forall s, xls_sheet_legal s = true -> xls_sheet_dom s ->
-  xls_sheet_merges (enc_xls_sheet s) [] = Ok (xs_regions s).
+  xls_sheet_merges (enc_xls_sheet s) [] 0 = Ok (xs_regions s).
 Proof.
   intros s HL HD. destruct (xls_sheet_legal_parts _ HL) as [A B].
-  unfold enc_xls_sheet. rewrite xsm_groups by assumption.
+  unfold enc_xls_sheet. unfold xls_sheet_merges at 1. cbn [xls_sheet_merges_with].
+  change (REC_BOF =? REC_BOF) with true. cbv iota. change (0 + 1) with 1. fold xls_sheet_merges.
+  rewrite xsm_groups by assumption.
   rewrite xsm_quiet_app by exact B. unfold xls_sheet_merges. cbn [app xls_sheet_merges_with].
-  assert (E1 : (REC_EOF =? REC_MERGECELLS) = false) by reflexivity.
-  assert (E2 : (REC_EOF =? REC_EOF) = true) by reflexivity.
-  rewrite E1, E2. reflexivity.
+  change (REC_EOF =? REC_BOF) with false. change (1 <? 1) with false.
+  change (REC_EOF =? REC_MERGECELLS) with false. change (REC_EOF =? REC_EOF) with true. reflexivity.
 Qed.
 
 Definition xls_subs (wb : list xls_sheet_e) : list (str * list xrec) :=
@@ -1551,10 +1583,11 @@ Lemma parse_merge_cells_short_errs :
   parse_merge_cells [] = Err E_LEN /\ parse_merge_cells [255; 255] = Err E_LEN.
 Proof. repeat split; reflexivity. Qed.
 
-Lemma xls_sheet_merges_safe : forall recs acc, safe (xls_sheet_merges recs acc).
+Lemma xls_sheet_merges_safe : forall recs acc dp, safe (xls_sheet_merges recs acc dp).
 Proof.
-  unfold xls_sheet_merges. induction recs as [|[typ data] recs IH]; intros acc; [exact I|].
-  cbn [xls_sheet_merges_with]. destruct (typ =? REC_MERGECELLS).
+  unfold xls_sheet_merges. induction recs as [|[typ data] recs IH]; intros acc dp; [exact I|].
+  cbn [xls_sheet_merges_with]. destruct (typ =? REC_BOF); [apply IH|]. destruct (1 <? dp); [apply IH|].
+  destruct (typ =? REC_MERGECELLS).
   - apply safe_bind; [apply parse_merge_cells_safe|]. intros ds. apply IH.
   - destruct (typ =? REC_EOF); [exact I|apply IH].
 Qed.
@@ -2013,11 +2046,23 @@ Lemma reversed_ref_as_written :
   scan_merge_regions [EStart s_mergeCell [(s_ref, [66; 50; 58; 65; 49])]] = Ok [((1, 1), (0, 0))].
 Proof. vm_compute. reflexivity. Qed.
 
-(* xls non-vacuity: two sheets, several MergeCells records, regions up to IV65536 *)
+(* xls non-vacuity: two sheets, several MergeCells records, regions up to IV65536; the first
+   sheet carries an embedded chart between its two MergeCells records — the chart substream
+   holds the series cache (DIMENSIONS, NUMBER, LABEL), a MERGECELLS record of its own, a record
+   shorter than the two bytes a MERGECELLS count needs, and a further BOF … EOF pair — and an
+   empty nested substream behind the last one *)
 Definition ex_xls : list xls_sheet_e :=
-  [mkXlsSheet x_S1 [([(512, [0; 0])], [((0, 0), (1, 1)); ((65535, 255), (65535, 255))]);
-                    ([], [((2, 3), (4, 5))])] [(515, [1; 2; 3])] [(2057, [])];
-   mkXlsSheet x_T1 [] [] []].
+  [mkXlsSheet x_S1 [0; 6; 16; 0]
+     [([XRec (512, [0; 0])], [((0, 0), (1, 1)); ((65535, 255), (65535, 255))]);
+      ([XRec (236, [0; 0]); XRec (93, []);
+        XSub [0; 6; 32; 0]
+          [(4097, [0; 0]); (512, [0;0;0;0; 2;0;0;0; 0;0; 1;0; 0;0]); (4197, [1; 0]);
+           (515, [0;0; 0;0; 0;0; 0;0;0;0;0;0;36;64]); (516, [0;0; 0;0; 0;0; 1;0; 0; 97]);
+           (229, [1;0; 7;0; 8;0; 7;0; 8;0]); (229, [9]);
+           (2057, [0; 6; 32; 0]); (229, [2; 0]); (10, []); (60, [1])];
+        XRec (574, [182; 6])], [((2, 3), (4, 5))])]
+     [XRec (515, [1; 2; 3]); XSub [] []] [(2057, [])];
+   mkXlsSheet x_T1 [] [] [] []].
 Example ex_xls_nonvacuous :
   forallb xls_sheet_legal ex_xls = true /\ Forall xls_sheet_dom ex_xls /\
   NoDup (map xs_name ex_xls) /\
